@@ -64,9 +64,16 @@ pub fn c13_commands(cx: &mut Ctx) {
             primary_reads: None,
             role_blurred: false,
         };
+        // inside a transaction block, as the client was told by the previous ReadyForQuery
+        let mut in_txn_next = false;
         for s in &c.steps {
             if s.op != "send" {
                 continue;
+            }
+            let in_txn = in_txn_next;
+            in_txn_next = matches!(s.outcome, StepOutcome::Ready(b'T') | StepOutcome::Ready(b'E'));
+            if in_txn {
+                cx.probe("c13_step_inside_transaction");
             }
             let q = match query_text_of(s) {
                 Some(q) => q,
@@ -171,7 +178,8 @@ pub fn c13_commands(cx: &mut Ctx) {
                         break;
                     }
                     if !forwarded.is_empty() {
-                        cx.v("C13", "command_forwarded", "C13/command_forwarded", s.done_seq, format!("client {} step {}: the documented command {:?} was sent to server {}", c.id, s.idx, q, h.backend_conns[forwarded[0].0].host));
+                        let fp = if in_txn { "C13/command_forwarded/inside_transaction" } else { "C13/command_forwarded" };
+                        cx.v("C13", "command_forwarded", fp, s.done_seq, format!("client {} step {}: the documented command {:?} was sent to server {}", c.id, s.idx, q, h.backend_conns[forwarded[0].0].host));
                         break;
                     }
                     let shape = match shape {
